@@ -604,15 +604,20 @@ static void cc1(void) {
     char *incl = opt_include.data[i];
 
     char *path;
+    int next_idx = 0;
     if (file_exists(incl)) {
       path = incl;
     } else {
       path = search_include_paths(incl);
       if (!path)
         error("-include: %s: %s", incl, strerror(errno));
+      next_idx = include_next_position();
     }
 
+    // Like include_file(): #include_next in a file found on the include
+    // path continues behind the directory the file was found in.
     Token *tok2 = must_tokenize_file(path);
+    tok2->file->include_next_idx = next_idx;
     tok = append_tokens(tok, tok2);
   }
 
